@@ -40,10 +40,18 @@ func c06InFlight(mgr *Manager, markDef func(string) (string, bool)) (string, err
 	// sub-query loses its sub-query, and a definition with a sub-query of its own is merged (or negated) as if
 	// everything belonged to the main query. Tags whose evaluation needs such an inlining, and tags that refer
 	// to those, are classified apart.
+	// (what is undecided is read from the view's own snapshot: the listing above is older than the view, an
+	// import that finishes in between leaves the new streams undecided in the view only)
 	undecided := map[string]bool{}
-	for _, ti := range tags {
-		if ti.UncertainCount != 0 {
-			undecided[ti.Name] = true
+	if err := v.fetch(); err != nil {
+		return "", fmt.Errorf("view: %w", err)
+	}
+	for i := range tags {
+		if td, ok := v.tagDetails[tags[i].Name]; ok {
+			tags[i].UncertainCount = uint(td.Uncertain.OnesCount())
+		}
+		if tags[i].UncertainCount != 0 {
+			undecided[tags[i].Name] = true
 		}
 	}
 	tainted := map[string]bool{}
